@@ -343,6 +343,10 @@ class Formatter:
         if method and not key.startswith("_"):
             return method(value, prec)
 
+        if key in ("eq!", "ne!") and isinstance(value, list) and len(value) == 2:
+            # DECISIVE EQUALITY HAS NO FUNCTION FORM: EQ!(a, b) DOES NOT PARSE
+            return self._regexp_op("IS DISTINCT FROM" if key == "eq!" else "IS NOT DISTINCT FROM", value, prec)
+
         # treat as regular function call
         if isinstance(value, dict) and len(value) == 0:
             return key.upper() + "()"  # NOT SURE IF AN EMPTY dict SHOULD BE DELT WITH HERE, OR IN self.format()
